@@ -269,7 +269,7 @@ pub const R_ISA: u8 = 0;
 pub const R_MMU: u8 = 1;
 pub const R_CMO: u8 = 2;
 pub const R_HART: u8 = 3;
-pub const ISA_STRINGS: [&str; 8] = ["rv64i", "rv64im", "", "r", "rv64imafdc_zicbom_zicboz_sstc", "rv64imafdch_zicbom_zicboz_sstc", "rv", "rv6"];
+pub const ISA_STRINGS: [&str; 8] = ["rv64i", "rv64im", "", "r\u{e9}", "rv64imafdc_zicbom_zicboz_sstc", "rv64imafdch_zicbom_zicboz_sstc", "rv", "rv6"];
 pub fn hart_shape(isa_sel: u16, ncmo: u16, cmo_sel: u16) -> u16 {
     isa_sel | (ncmo << 3) | (cmo_sel << 5)
 }
@@ -525,7 +525,7 @@ pub struct Rimt;
 pub const I_IOMMU: u8 = 0;
 pub const I_RC: u8 = 1;
 pub const I_PLAT: u8 = 2;
-pub const PLAT_NAMES: [&str; 4] = ["ACPI0001", "AB", "A", ""];
+pub const PLAT_NAMES: [&str; 4] = ["ACPI0001", "D\u{e9}v\u{fc}", "A", ""];
 pub fn iommu_shape(nw: u16, wires_some: bool, base: bool, pci: bool, prox: bool) -> u16 {
     nw | (wires_some as u16) << 2 | (base as u16) << 3 | (pci as u16) << 4 | (prox as u16) << 5
 }
@@ -596,7 +596,7 @@ impl Table for Rimt {
             v.push(Op::new(I_IOMMU, iommu_shape(s.0, s.1, s.2, s.3, s.4), fl[n % fl.len()]));
         }
         for k in [I_RC, I_PLAT] {
-            let names: Vec<u16> = if k == I_PLAT { if level == 1 { vec![0, 2] } else { vec![0, 1, 2, 3] } } else { vec![0] };
+            let names: Vec<u16> = if k == I_PLAT { if level == 1 { vec![1, 2] } else { vec![0, 1, 2, 3] } } else { vec![0] };
             for (n, name) in names.iter().enumerate() {
                 v.push(Op::new(k, map_shape(0, false, 0, *name), fl[n % fl.len()]));
                 v.push(Op::new(k, map_shape(0, true, 0, *name), fl[(n + 1) % fl.len()]));
@@ -821,6 +821,9 @@ fn vbdf(f: &Fill, b: u8) -> u16 {
 impl Table for Viot {
     fn name(&self) -> &'static str {
         "viot"
+    }
+    fn max_image(&self) -> Option<usize> {
+        Some(65_535)
     }
     fn kinds(&self) -> &'static [&'static str] {
         &["add_virtio_pci_iommu", "add_virtio_mmio_iommu", "add_pci_range", "add_mmio_endpoint"]
